@@ -8,7 +8,10 @@ import (
 // Parse pares string to struct Endpoint, like tcp -h 10.219.139.142 -p 19386 -t 60000
 func Parse(endpoint string) Endpoint {
 	// tcp -h 10.219.139.142 -p 19386 -t 60000
-	proto := endpoint[0:3]
+	proto := endpoint
+	if len(proto) > 3 {
+		proto = proto[0:3]
+	}
 	pFlag := flag.NewFlagSet(proto, flag.ContinueOnError)
 	var host, bind string
 	var port, timeout, grid, qos, weight, weightType, authType int
@@ -21,7 +24,9 @@ func Parse(endpoint string) Endpoint {
 	pFlag.IntVar(&weightType, "v", 0, "weight type") // 权重类型
 	pFlag.IntVar(&authType, "e", 0, "auth type")     // 鉴权类型: enum AUTH_TYPE { AUTH_TYPENONE = 0, AUTH_TYPELOCAL = 1};
 	pFlag.StringVar(&bind, "b", "", "bind")
-	_ = pFlag.Parse(strings.Fields(endpoint)[1:])
+	if fields := strings.Fields(endpoint); len(fields) > 0 {
+		_ = pFlag.Parse(fields[1:])
+	}
 	isTcp := int32(0)
 	if proto == "tcp" {
 		isTcp = int32(1)
